@@ -720,3 +720,98 @@ func (a *A) returnsNilError(fn *ssa.Function, idx int, depth int) bool {
 	}
 	return true
 }
+
+// rulePooledMapCleared: a map taken from a sync.Pool is never used or returned dirty: either a
+// delete-all loop over it dominates every write to it (cleared on Get), or no path from Get to a
+// function exit avoids a delete-all loop (cleared before Put on every path).
+func (a *A) rulePooledMapCleared(fn *ssa.Function) int {
+	n := 0
+	allInstrs(fn, func(in ssa.Instruction) {
+		ta, ok := in.(*ssa.TypeAssert)
+		if !ok {
+			return
+		}
+		if _, isMap := ta.AssertedType.Underlying().(*types.Map); !isMap {
+			return
+		}
+		c, ok := ta.X.(*ssa.Call)
+		if !ok || calleeFull(&c.Call) != "(*sync.Pool).Get" {
+			return
+		}
+		n++
+		var m ssa.Value = ta
+		if ta.CommaOk {
+			for _, r := range *ta.Referrers() {
+				if ex, ok := r.(*ssa.Extract); ok && ex.Index == 0 {
+					m = ex
+				}
+			}
+		}
+		// clear loops over m
+		var clearHeads []*ssa.BasicBlock
+		for _, l := range mapRangeLoops(fn) {
+			if l.X != m {
+				continue
+			}
+			del := false
+			for b := range l.Blocks {
+				for _, x := range b.Instrs {
+					if cc, ok := isBuiltinCall(x, "delete"); ok && cc.Args[0] == m {
+						del = true
+					}
+				}
+			}
+			if del {
+				clearHeads = append(clearHeads, l.Header)
+			}
+		}
+		// builtin clear(m)
+		var clearCalls []ssa.Instruction
+		allInstrs(fn, func(x ssa.Instruction) {
+			if cc, ok := isBuiltinCall(x, "clear"); ok && cc.Args[0] == m {
+				clearCalls = append(clearCalls, x)
+			}
+		})
+		construct := fname(fn) + "#pooled-map-cleared"
+		// (A) cleared on Get: a clear dominates every write
+		onGet := len(clearHeads)+len(clearCalls) > 0
+		allInstrs(fn, func(x ssa.Instruction) {
+			mu, ok := x.(*ssa.MapUpdate)
+			if !ok || mu.Map != m {
+				return
+			}
+			dom := false
+			for _, h := range clearHeads {
+				if h.Dominates(mu.Block()) && h != mu.Block() {
+					dom = true
+				}
+			}
+			for _, cl := range clearCalls {
+				if dominatesInstr(cl, mu) {
+					dom = true
+				}
+			}
+			if !dom {
+				onGet = false
+			}
+		})
+		// (B) cleared before every exit
+		isClear := func(x ssa.Instruction) bool {
+			for _, h := range clearHeads {
+				if x.Block() == h {
+					return true
+				}
+			}
+			for _, cl := range clearCalls {
+				if x == cl {
+					return true
+				}
+			}
+			return false
+		}
+		beforeExit := len(clearHeads)+len(clearCalls) > 0 && pathToExitAvoiding(in, isClear, false) == nil
+		a.Check(onGet || beforeExit, construct, in.Pos(), "the pooled map is emptied before its first write after Get (or before every exit)",
+			"a map taken from the pool can be written without having been emptied, or go back to the pool with the previous row's entries on some path: the next evaluation (of any partition, any instance) sees stale fields")
+	})
+	return n
+}
